@@ -158,16 +158,17 @@ def self_overlapping(data, addrs, end):
     return any(b0 < a1 for (a0, a1), (b0, b1) in zip(ext, ext[1:]))
 
 
-def check(data, start, end, opts, map_addrs=None, map_fmt=None, ini=(), dictionary=None, tail=False, tiling_only=False, no_skool=False):
+def check(data, start, end, opts, map_addrs=None, map_fmt=None, ini=(), dictionary=None, tail=False, tiling_only=False, no_skool=False, org=None):
     """Returns (list of problems, executions)."""
+    org = ORG if org is None else org
     d = tools.workdir()
     # the file continues past END (a NOP, a RET, a NOP): code that runs off the end of the
     # range finds a terminal instruction beyond it, which must not attract directives
     orig = data
     if tail:
-        data = bytes(data[:end - ORG]) + bytes((0x00, 0xC9, 0x00))
+        data = bytes(data[:end - org]) + bytes((0x00, 0xC9, 0x00))
     binfile = tools.write_file('c14.bin', data, d)
-    args = ['-o', str(ORG), '-s', str(start), '-e', str(end)] + list(opts)
+    args = ['-o', str(org), '-s', str(start), '-e', str(end)] + list(opts)
     for kv in ini:
         args += ['-I', kv]
     if dictionary is not None:
@@ -221,7 +222,7 @@ def check(data, start, end, opts, map_addrs=None, map_fmt=None, ini=(), dictiona
     # feed it to sna2skool (default options: -r sub-blocks are already in the control file)
     ctl_text = r.out
     s_opts = []
-    res, probs, skool = c01.run_pair(binfile, ORG, end, ctl_text, ['-s', str(start)] + s_opts, d, 'c14')
+    res, probs, skool = c01.run_pair(binfile, org, end, ctl_text, ['-s', str(start)] + s_opts, d, 'c14')
     if res is None:
         return ['after sna2ctl {}: {}'.format(' '.join(opts), p) for p in probs], 3
     image, warn = res
@@ -237,7 +238,7 @@ def check(data, start, end, opts, map_addrs=None, map_fmt=None, ini=(), dictiona
         if start <= a < end and a not in iaddrs:
             problems.append('sub-block directive {!r} does not sit on an instruction boundary of the skool file'.format(line.strip()))
     ign = [(end, 65536)]
-    bad = c01.compare(image, orig[start - ORG:end - ORG], start, end, [])
+    bad = c01.compare(image, orig[start - org:end - org], start, end, [])
     for a, want, got in bad[:3]:
         problems.append('round trip: byte at {} is {} (original {})'.format(a, got, want))
     problems.extend(probs[:2])
@@ -276,7 +277,15 @@ def cases(tier):
         for op in range(256):
             for fi in range(len(FOLLOWERS)):
                 yield ('opsweep', (prefix, op, fi))
-    # arbitrary maps: every subset of an 8-byte window on fixed images
+    # images that end at the top of memory (END = 65536): every sequence of <= 2 tokens, and every instruction
+    # of >= 2 bytes cut off by the 64K edge
+    for L in (1, 2):
+        for seq in itertools.product(range(n), repeat=L):
+            yield ('top', ('seq', seq))
+    for cut in ((0x3E,), (0xC3,), (0xC3, 0x00), (0x21,), (0x21, 0x00), (0xCD, 0x00), (0x18,), (0x10,), (0xDD, 0x21), (0xDD, 0x21, 0x00), (0xED, 0x43),
+                (0xED, 0x43, 0x00), (0xDD, 0xCB), (0xDD, 0xCB, 0x01), (0xCB,), (0xED,), (0xDD,), (0xDD, 0x36), (0xDD, 0x36, 0x01), (0x32, 0x00), (0xD3,), (0xCF,)):
+        for lead in ((), (0x00,), (0xC9,), (0xAF, 0x3C)):
+            yield ('top', ('raw', lead + cut))
     fixed = [(0, 8, 7), (15, 0), (7, 9, 13), (13, 14, 0, 18), (16, 1), (19, 20, 11, 0), (4, 0, 8, 19), (4, 8, 8, 8), (1, 8, 19), (21, 8, 19), (21, 7, 12), (21, 8, 7)]
     for fi, seq in enumerate(fixed):
         for mask in range(256):
@@ -340,6 +349,19 @@ def run_one(kind, spec, tier):
                 p, n = check(data, ORG, end, opts, addrs, fmt)
                 yield ('inline/{}/{}/{}/{}'.format(''.join('%02X' % b for b in inl), ''.join('%02X' % b for b in tailcode), fmt, ' '.join(opts) or '-'),
                        {'kind': 'map', 'raw': list(data), 'start': ORG, 'end': end, 'opts': list(opts), 'map': addrs, 'fmt': fmt}, p, n)
+    elif kind == 'top':
+        how, spec2 = spec
+        if how == 'seq':
+            data, starts = build(spec2)
+            name = '>'.join(T[i][0] for i in spec2)
+        else:
+            data = bytes(spec2)
+            name = ''.join('%02X' % b for b in spec2)
+        org = 65536 - len(data)
+        for opts in ((), ('-C',), ('-r',), ('-h',)):
+            p, n = check(data, org, 65536, opts, org=org)
+            yield ('top/{}/{}'.format(name, ' '.join(opts) or '-'),
+                   {'kind': 'plain', 'raw': list(data), 'org': org, 'start': org, 'end': 65536, 'opts': list(opts)}, p, n)
     elif kind == 'opsweep':
         prefix, op, fi = spec
         data = bytes((0xDD, 0x2E, 0x08, 0x7E, 0x23) + tuple(prefix) + (op,) + FOLLOWERS[fi])
@@ -393,13 +415,13 @@ def run(tier, seed):
     meta = dict(
         rule='images = all token sequences of length <= {} over a 22-token alphabet x ranges (whole, first token dropped, last byte dropped) x options '
              '(none,-C,-r,-h,-l,-C -r; TextMinLength*/TextChars/Dictionary on sequences <= 2); execution-trace code maps from every token start in 5 '
-             'map formats for sequences <= {}; every subset (256) of an 8-byte window as an arbitrary map on 12 fixed images; every opcode byte after 7 prefixes (none, DD, FD, ED, CB, DDCB d, FDCB d) inside a routine with 2 continuations x (none,-C). states = distinct token '
+             'map formats for sequences <= {}; every subset (256) of an 8-byte window as an arbitrary map on 12 fixed images; every opcode byte after 7 prefixes (none, DD, FD, ED, CB, DDCB d, FDCB d) inside a routine with 2 continuations x (none,-C); images ending at 65536 (token sequences <= 2, 22 cut-off instructions x 4 leads) x (none,-C,-r,-h). states = distinct token '
              'sets'.format(3 if tier == 'quick' else 4, 2 if tier == 'quick' else 3),
         exhaustive=True,
         bound='token sequences <= {}'.format(3 if tier == 'quick' else 4),
         assumptions=['the generated control file is fed to sna2skool with default options (sna2ctl -r already writes the RST argument sub-blocks)',
                      'for arbitrary (non-trace) address sets only termination and tiling are required (as the property states); trace maps get every clause, except that a program whose code reachable from the trace (both outcomes of each branch) overlaps itself is not fed to sna2skool (no control file can satisfy both clauses for it)'],
-        required_guards=['plain', 'trace', 'subset', 'inline', 'opsweep', 'fed_to_sna2skool'],
+        required_guards=['plain', 'trace', 'subset', 'inline', 'opsweep', 'top', 'fed_to_sna2skool'],
     )
     return stats, meta
 
@@ -412,5 +434,5 @@ def replay(case):
     if case.get('pad8'):
         data = (data + bytes(8))[:max(8, len(data))]
     p, n = check(data, case['start'], case['end'], tuple(case['opts']), case.get('map'), case.get('fmt'), tuple(case.get('ini', ())), case.get('dict'),
-                 tail=case.get('tail', False), tiling_only=case.get('tiling_only', False), no_skool=case.get('no_skool', False))
+                 tail=case.get('tail', False), tiling_only=case.get('tiling_only', False), no_skool=case.get('no_skool', False), org=case.get('org'))
     return p
